@@ -301,6 +301,17 @@ def hyp_search(fn, strategy, *, seed, max_examples, rec, known, shrink=True, max
             failures.append({"key": v.key, "message": v.message, "case": to_jsonable(last["case"])})
             swallowed.add(v.key)
             continue
+        except HarnessError:
+            raise
+        except Exception:
+            # an error from inside Hypothesis (its shrinker has raised on some regex-built strategies) after a case
+            # has already failed: the failing case found so far stands, unshrunk; without one it is a harness error
+            if not last:
+                raise
+            v = last["v"]
+            failures.append({"key": v.key, "message": v.message, "case": to_jsonable(last["case"])})
+            swallowed.add(v.key)
+            continue
         break
     return failures
 
